@@ -27,6 +27,13 @@ def main(path, repo):
             print(d["rendered"])
         print("REPLAY-RESULT:", "compiles (does not reproduce)" if ok else "does not compile (reproduces)")
         return 0 if ok else 1
+    if kind == "accepted-invalid-declaration":
+        u.harnesses = []
+        cr = Crate(os.path.join(work, "chk"), "vchk", [u], dep, lock, release_macro=relmacro, extra_rt=extra_rt)
+        cr.write(only_if_changed=False)
+        ok, diags, err, wall = E.cargo_check(cr, os.path.join(work, "target_chk"))
+        print("REPLAY-RESULT:", "compiles (reproduces: the rules call this declaration invalid)" if ok else "rejected (does not reproduce)")
+        return 1 if ok else 0
     vals = rec.get("input_bytes")
     if vals is None:
         print("no input recorded")
